@@ -520,7 +520,11 @@ def Suite.allEmpty : List Suite → Bool
   | s :: rest => Suite.isEmpty s && Suite.allEmpty rest
 end
 
-def sortMods (mods : List Module) : List Module := sortBy (fun a b => strLe a.stem b.stem) mods
+/-- `get_py_files_from_dir` / `get_matching_files` sort the *paths* (`<dir>/<stem>.py`): the order of the file names, which
+    differs from the order of the stems when one stem extends another (`a.py` / `a.b.py`, `a.py` / `a-b.py`). -/
+def Module.fileName (m : Module) : String := m.stem ++ ".py"
+
+def sortMods (mods : List Module) : List Module := sortBy (fun a b => strLe a.fileName b.fileName) mods
 
 /-- `load_suites_from_files` on the files `mods` (already glob-matched): path order, hidden and
     empty suites dropped, no sorting by rank, no directory recursion. -/
